@@ -234,6 +234,19 @@ def clock_writers(chk: Check, repo: Repo) -> None:
             created = isinstance(fdef, ast.Call) and call_name(fdef).endswith("create_future")
             stored = any(isinstance(n, ast.Assign) and ast.unparse(n.targets[0]) == "self._expected_notify_handler" and isinstance(n.value, ast.Tuple) and len(n.value.elts) == 2 and isinstance(n.value.elts[1], ast.Name) and n.value.elts[1].id == fut_name for n in walk_local(sy.node))
             ok = created and stored
+    # ... and it may only move the timer forward: every other writer adds a positive amount (clock-writer above); this
+    # one assigns, so the assignment has to sit under a comparison of the reply with the timer's current value
+    okm = False
+    if len(upc) == 1:
+        cfg_s = CFG(sy.node)
+        mf_s = cfg_s.must_facts()
+        for n_ in cfg_s.nodes:
+            if n_.ast is not None and n_.kind == "stmt" and any(x is upc[0] for x in ast.walk(n_.ast)):
+                for t_, v_ in mf_s[n_.id]:
+                    nc = norm_cmp(ast.parse(t_, mode="eval").body, v_)
+                    if nc and nc[1] in (">", ">=") and "current_timer_value" in nc[2] and isinstance(arg, ast.Name) and nc[0] == arg.id:
+                        okm = True
+    chk.ob("sync-reply-never-moves-the-timer-back", sy.site(upc[0]) if upc else sy.site(), okm, "synchronize() applies the reply only when it is ahead of the timer" if okm else "synchronize() assigns the reply's value to the timer unconditionally (`self.update(new_value=...)`): a reply lower than what the timer has reached meanwhile (other authenticated notifications / wrappers moved it on while the request was pending; or our own request echoed back from another address) sets the timer BACK — outgoing wrappers then carry a lower timer value and an older replayed wrapper falls inside the tolerance again", key="clock|sync-reply-can-move-the-timer-back")
     chk.ob("clock-update-source", sy.site(), ok, "the synchronised value is the result of the future this synchronize() created and stored as the expected reply, i.e. the one handle_timer_notify completes after MAC verification", key="clock-update-source")
     # validate_secure_wrapper is only called after decrypt_frame succeeded (table (a)) ; census of callers
     for f, c in call_sites(repo, "validate_secure_wrapper"):
